@@ -51,7 +51,7 @@ contract("usim._primitives.task.try_close",
          ensures=["True"], modifies=[], check_frame=False, inline=False, no_invariants=True,
          unexpected_ok=[],
          note="ASSUMED effect-free: `close()` of a never-started or finished payload object",
-         props=["C04"])
+         props=["C04", "C06"])
 
 contract("usim._primitives.task.Done.__set_done__", allocates=False,
          params={"self": REF("Done")},
